@@ -39,6 +39,13 @@ Theorem C05_permitting_flush_announces_everything : forall st st' out,
 Proof. exact flush_true_empties. Qed.
 Print Assumptions C05_permitting_flush_announces_everything.
 
+(* UID FETCH / UID STORE / UID SEARCH / UID COPY / UID MOVE perform exactly the flushes of the sequence-number forms *)
+Theorem C05_uid_forms_flush_alike :
+  map (handler_permits true) uid_twins = map (handler_permits false) uid_twins /\
+  forallb (fun c => match handler_permits true c with Some _ => true | None => false end) uid_twins = true.
+Proof. exact uid_forms_flush_alike. Qed.
+Print Assumptions C05_uid_forms_flush_alike.
+
 Theorem C05_permitting_commands : permitting_ok = true.
 Proof. exact permitting_ok_true. Qed.
 Print Assumptions C05_permitting_commands.
